@@ -7,6 +7,8 @@ package types
 import (
 	"fmt"
 	"io"
+	"sort"
+	"sync"
 	"testing"
 
 	"github.com/tendermint/tendermint/crypto/merkle"
@@ -199,6 +201,117 @@ func TestVerifC10PartSet(t *testing.T) {
 			vg.App("CPartSet", vg.Hx(data), vg.Z(int64(sz)), vg.Z(int64(ps.Total())), vg.Hx(ps.Hash()),
 				vg.L(partsT), vg.L(opsT), vg.L(resT), vg.B(complete), vg.Hx(out)),
 			fmt.Sprintf("data=%x partSize=%d ops(index,proofIndex,proofTotal,bytes)=%s", data, sz, c10OpsDescr(ops)))
+	}
+	// Concurrent delivery (seed C10f): AddPart is called from one goroutine per peer, so "all
+	// orders and repetitions of part delivery" includes several copies of one part arriving
+	// together.  Each round releases G identical copies of each chosen part at once on a fresh
+	// set built from the header; the ops of a group are identical, so every linearisation gives
+	// the same multiset of answers per group (one Added, the rest NotAdded) and the same final
+	// set - the case is written with the groups in index order and each group's answers sorted,
+	// which is one valid sequential order.  The round written is the first whose answers are
+	// not that multiset (a search over schedules for a failing input), else the last one.
+	nConc := vg.Scale(16, 300)
+	for k := 0; k < nConc; k++ {
+		id := cs.NextID()
+		if !cs.Want(id) {
+			continue
+		}
+		r := root.Fork(uint64(1<<32 + k))
+		sz := []uint32{4, 8, 16}[r.Intn(3)]
+		total := 2 + r.Intn(5)
+		dl := int(sz)*total - r.Intn(int(sz))
+		data := r.Bytes(dl)
+		ps := NewPartSetFromData(data, sz)
+		total = int(ps.Total())
+		var partsT []string
+		for i := 0; i < total; i++ {
+			partsT = append(partsT, c10Part(ps.GetPart(i)))
+		}
+		// which parts are delivered: all of them, or all but one (then the set must stay incomplete)
+		idxs := r.Perm(total)
+		if r.Bool() {
+			idxs = idxs[:total-1]
+		}
+		sort.Ints(idxs)
+		const G = 5
+		rounds := vg.Scale(150, 600)
+		var ops []*Part
+		var resT []string
+		var ps2 *PartSet
+		roundUsed := 0
+		for round := 1; round <= rounds; round++ {
+			ps2 = NewPartSetFromHeader(ps.Header())
+			res := make([][]uint64, len(idxs))
+			start := make(chan struct{})
+			var wg sync.WaitGroup
+			for gi, i := range idxs {
+				res[gi] = make([]uint64, G)
+				for c := 0; c < G; c++ {
+					wg.Add(1)
+					go func(gi, i, c int, p *Part) {
+						defer wg.Done()
+						<-start
+						added, err := ps2.AddPart(p)
+						code := uint64(1)
+						switch {
+						case added:
+							code = 0
+						case err == ErrPartSetUnexpectedIndex:
+							code = 2
+						case err == ErrPartSetInvalidProof:
+							code = 3
+						case err != nil:
+							code = 9
+						}
+						res[gi][c] = code
+					}(gi, i, c, c10ClonePart(ps.GetPart(i)))
+				}
+			}
+			close(start)
+			wg.Wait()
+			anomaly := false
+			ops, resT = nil, nil
+			for gi, i := range idxs {
+				sort.Slice(res[gi], func(a, b int) bool { return res[gi][a] < res[gi][b] })
+				for c := 0; c < G; c++ {
+					ops = append(ops, ps.GetPart(i))
+					resT = append(resT, vg.N(res[gi][c]))
+					if (c == 0) != (res[gi][c] == 0) || res[gi][c] > 1 {
+						anomaly = true
+					}
+				}
+			}
+			roundUsed = round
+			if anomaly || int(ps2.Count()) != len(idxs) {
+				break
+			}
+		}
+		var opsT []string
+		for _, p := range ops {
+			opsT = append(opsT, c10Part(p))
+		}
+		complete := ps2.IsComplete()
+		var out []byte
+		if complete && total > 0 {
+			func() {
+				defer func() {
+					if rec := recover(); rec != nil {
+						out = []byte(fmt.Sprintf("PANIC while reassembling: %v", rec))
+					}
+				}()
+				var err error
+				out, err = io.ReadAll(ps2.GetReader())
+				if err != nil {
+					out = []byte("ERROR while reassembling: " + err.Error())
+				}
+			}()
+		}
+		cs.Count("op/concurrent-copy", len(ops))
+		cs.Add(id, fmt.Sprintf("partset-concurrent/total=%d", total), true,
+			vg.App("CPartSet", vg.Hx(data), vg.Z(int64(sz)), vg.Z(int64(ps.Total())), vg.Hx(ps.Hash()),
+				vg.L(partsT), vg.L(opsT), vg.L(resT), vg.B(complete), vg.Hx(out)),
+			fmt.Sprintf("data=%x partSize=%d CONCURRENT delivery: %d copies of each of the genuine parts %v released together on a fresh set (round %d of %d; answers per part sorted); Count()=%d Total()=%d IsComplete()=%v",
+				data, sz, G, idxs, roundUsed, rounds, ps2.Count(), ps2.Total(), complete))
 	}
 	if err := cs.Write(); err != nil {
 		t.Fatal(err)
